@@ -63,7 +63,7 @@ def run(ck):
     for det, docs in forced:
         cases.append({"k": "rule", "id": ck.new_id(), "rule": rule_text(det), "docs": [D(d) for d in docs], "sw": ALL_SW,
                       "_det": det, "_docs": docs})
-    for fam, det, docs, extra in covfam.all_cases(skip=("loader_errors",) if not thorough else ()):
+    for fam, det, docs, extra in covfam.all_cases(skip=("wide_matrix_quant",) + ((("loader_errors",) if not thorough else ()))):
         cases.append({"k": "rule", "id": ck.new_id(), "rule": rule_text(det, extra=extra), "docs": [D(d) for d in docs], "sw": ALL_SW,
                       "_det": det, "_docs": docs})
         ck.count("family:" + fam)
@@ -83,6 +83,10 @@ def run(ck):
             continue
         ck.count("load:ok")
         classes = common.known_of(model[c["id"]])
+        scope = common.scope_of(model[c["id"]])
+        ck.count("rules_with_some_switch_set_in_theorem_scope", 1 if scope else 0)
+        for sw in scope:
+            ck.count("in_theorem_scope:sw%d" % sw)
         line_a = common.strip_extra(impl[c["id"]])
         line_b = common.strip_known(model[c["id"]])
         agrees = (line_a == line_b) or (common.lines_agree(line_a, line_b) is True)
@@ -101,6 +105,11 @@ def run(ck):
                 continue
             cls = classes.get(sw, [])
             accepted = [k for k in cls if k in listed]
+            in_scope = sw in scope
+            if in_scope:
+                # scope_sound (Properties/C01_shake1.v): the theorem says the verdict is preserved for
+                # this rule and switch set on every document and hash order: no known class applies
+                accepted = []
             if agrees and accepted:
                 suppressed += 1
                 for k in accepted:
@@ -112,7 +121,7 @@ def run(ck):
                               "what": "the optimised rule gives another verdict than the unoptimised rule (or optimise/matches panics)",
                               "rule": c["rule"], "switches": {"coalesce": bool(sw & 1), "shake": bool(sw & 2), "rewrite": bool(sw & 4), "matrix": bool(sw & 8)},
                               "doc": c["docs"][i] if i >= 0 else None, "unoptimised": base, "optimised": opt,
-                              "model_reproduces": agrees, "classes_accepting": cls,
+                              "model_reproduces": agrees, "classes_accepting": cls, "inside_theorem_scope": in_scope,
                               "replay_case": {"k": "rule", "id": 1, "rule": c["rule"], "docs": c["docs"], "sw": [0, sw]}})
             direct_failed.add(c["id"])
     ck.coverage["suppressed_as_known"] = suppressed
